@@ -48,8 +48,8 @@ LATITUDE (every use is counted in a ``lat_*`` counter):
  4. RENAME INBOX: NO and unchanged is accepted (``lat_rename_inbox_refused``;
     maildir does not support it); on OK the target holds exactly INBOX's
     messages (UIDs are not compared), INBOX is empty, and every inferior of
-    INBOX either stays or moves along (``lat_inbox_inferior_stayed`` /
-    ``lat_inbox_inferior_moved``).
+    INBOX stays (``lat_inbox_inferior_stayed``; RFC 3501 6.3.5: they "are
+    unaffected by a rename of INBOX").
  5. INBOX is case-insensitive: every argument whose upper-cased form is
     ``INBOX`` denotes INBOX (``lat_inbox_case_arg``); in patterns the first
     five characters of names whose first hierarchy level is a spelling of
@@ -807,11 +807,12 @@ class Runner:
             if s_in and not m_in:
                 ctx.count('lat_inbox_inferior_stayed')
             elif m_in and not s_in:
-                ctx.count('lat_inbox_inferior_moved')
-                m.real[norm(moved)] = m.real.pop(stay)
-                m.moved[norm(moved)] = stay
-                if stay in m.subs:
-                    m.sub_follow[norm(moved)] = stay
+                # RFC 3501 6.3.5: inferior names of INBOX "are unaffected by
+                # a rename of INBOX" (this was a latitude until the last day)
+                ctx.report('rename-inbox-moved-inferior',
+                           'RENAME INBOX moved its inferior %r to %r'
+                           % (stay, moved), name=stay)
+                raise Stop()
             elif not s_in and shape_suffix(moved) and not shape_suffix(stay):
                 # reported below as a name LIST omits
                 m.real[norm(moved)] = m.real.pop(stay)
